@@ -22,6 +22,7 @@ import (
 	"fmt"
 	"os"
 	"reflect"
+	"regexp"
 	"runtime"
 	"runtime/debug"
 	"strings"
@@ -45,12 +46,14 @@ type row struct {
 	Val     *val   `json:"val,omitempty"`
 	DevDrop bool   `json:"devdrop,omitempty"`
 	Pos     int    `json:"pos,omitempty"`
+	What    string `json:"what,omitempty"`
 	// struct rows
 	Name   string `json:"name,omitempty"`
 	Recipe string `json:"recipe,omitempty"`
 	// raw byte cases produced by the harness from TLC rows (mutations)
 	Hex    string `json:"hex,omitempty"`
 	Origin string `json:"origin,omitempty"`
+	idx    int
 }
 
 const (
@@ -86,6 +89,14 @@ func main() {
 		}
 	case "c03", "c02":
 		runInChildren(*mode, vfgo.Cases[row]())
+	case "c03gen":
+		genStreams("stream")
+	case "c02gen":
+		genStreams("hostile")
+	case "c03derive":
+		derive("stream", vfgo.Cases[row]())
+	case "c02derive":
+		derive("hostile", vfgo.Cases[row]())
 	default:
 		vfgo.Fatalf("bad mode %q", *mode)
 	}
@@ -161,7 +172,10 @@ func key(symptom string, v *val) string {
 // roundTrip runs encode / decode / compare for one Go value. want is the Go value of the
 // specification's Norm(v); wantBytes the specification's wire form (nil: no binding check).
 func roundTrip(r row, v *val, orig, want any, wantBytes []byte, newTarget func() any) {
-	cls := shapeOf(v)
+	roundTripCls(r, v, shapeOf(v), orig, want, wantBytes, newTarget)
+}
+
+func roundTripCls(r row, v *val, cls string, orig, want any, wantBytes []byte, newTarget func() any) {
 	var enc []byte
 	var err error
 	if p, msg := vfgo.Recover(func() { enc, err = ua.Encode(orig) }); p {
@@ -252,8 +266,8 @@ func runInChildren(mode string, rows []row) {
 				R row `json:"r"`
 			}{i, rows[i]})
 		}
-		out := vfgo.RunChild(mode, in.Bytes(), 180*time.Second, fmt.Sprintf("VF_CASE_TIMEOUT=%s", *perCase))
-		started, finished := -1, -1
+		out := vfgo.RunChild(mode, in.Bytes(), 180*time.Second, fmt.Sprintf("VF_CASE_TIMEOUT=%s", *perCase), "GOTRACEBACK=none")
+		started, finished, decoded := -1, -1, -1
 		sc := bufio.NewScanner(bytes.NewReader(out.Stdout))
 		sc.Buffer(make([]byte, 1<<20), 1<<26)
 		for sc.Scan() {
@@ -264,6 +278,8 @@ func runInChildren(mode string, rows []row) {
 			switch cr.Status {
 			case "start":
 				started = cr.I
+			case "decoded":
+				decoded = cr.I
 			case "ok":
 				finished = cr.I
 				vfgo.OK(rows[cr.I], cr.Class, cr.Obs)
@@ -281,6 +297,9 @@ func runInChildren(mode string, rows []row) {
 			r := rows[started]
 			cls := caseClass(mode, r)
 			switch {
+			case mode == "c03" && decoded != started && (out.TimedOut || out.Panic || strings.Contains(out.Stderr, "VF-WATCHDOG")):
+				// the first decode itself did not return: not a re-encoding question (C02 decides it)
+				vfgo.OK(r, cls, "first decode did not return (C02): "+firstLine(out.Stderr))
 			case out.TimedOut || strings.Contains(out.Stderr, "VF-WATCHDOG hang"):
 				vfgo.Violation(r, cls, "hang:"+shapeKey(mode, r), fmt.Sprintf("no result within %s for %s", *perCase, describe(r)))
 			case strings.Contains(out.Stderr, "VF-WATCHDOG memory") || strings.Contains(out.Stderr, "out of memory") || strings.Contains(out.Stderr, "cannot allocate"):
@@ -343,7 +362,7 @@ func caseClass(mode string, r row) string {
 	if r.Origin != "" {
 		return fmt.Sprintf("%s/%s/%s", r.Kind, caseType(r), r.Origin)
 	}
-	return fmt.Sprintf("%s/%s/pos%d/decodes=%v", r.Kind, caseType(r), r.Pos, r.OK)
+	return fmt.Sprintf("%s/%s/%s/pos%d/decodes=%v", r.Kind, caseType(r), r.What, r.Pos, r.OK)
 }
 
 // shapeKey is the part of a violation key that names the failing input shape.
@@ -351,10 +370,15 @@ func shapeKey(mode string, r row) string {
 	if r.Origin != "" {
 		return caseType(r) + "/" + r.Origin
 	}
+	if r.What != "" {
+		return caseType(r) + "/" + r.What
+	}
 	return caseType(r)
 }
 
 var inFlight atomic.Int64
+var emit func(cr childRes)
+var tgtKeep any
 
 func child(mode string) {
 	// backstop: address space limit, and a watchdog for hangs / memory
@@ -377,14 +401,18 @@ func child(mode string) {
 				os.Exit(7)
 			}
 			runtime.ReadMemStats(&ms)
-			if ms.Sys > 3<<30 {
-				fmt.Fprintf(os.Stderr, "VF-WATCHDOG memory case=%d sys=%d\n", inFlight.Load(), ms.Sys)
+			if ms.HeapAlloc > 3<<30 {
+				runtime.GC() // garbage of earlier cases does not count
+				runtime.ReadMemStats(&ms)
+			}
+			if ms.HeapAlloc > 3<<30 {
+				fmt.Fprintf(os.Stderr, "VF-WATCHDOG memory case=%d heap=%d\n", inFlight.Load(), ms.HeapAlloc)
 				os.Exit(8)
 			}
 		}
 	}()
 	w := bufio.NewWriter(os.Stdout)
-	emit := func(cr childRes) {
+	emit = func(cr childRes) {
 		b, _ := json.Marshal(cr)
 		w.Write(b)
 		w.WriteByte('\n')
@@ -405,6 +433,7 @@ func child(mode string) {
 		startedAt.Store(time.Now().UnixNano())
 		inFlight.Store(int64(c.I))
 		var cr childRes
+		c.R.idx = c.I
 		switch mode {
 		case "c03":
 			cr = reencode(c.R)
@@ -412,6 +441,13 @@ func child(mode string) {
 			cr = hostile(c.R)
 		}
 		inFlight.Store(-1)
+		var ms runtime.MemStats
+		runtime.ReadMemStats(&ms)
+		if ms.HeapAlloc > 256<<20 {
+			tgtKeep = nil
+			runtime.GC()
+			debug.FreeOSMemory()
+		}
 		cr.I = c.I
 		cr.Class = caseClass(mode, c.R)
 		emit(cr)
@@ -431,68 +467,69 @@ func newTargetFor(r row) any {
 
 // ---------------------------------------------------------------- C03
 
-// extObjShape looks for an ExtensionObject whose body was not decoded (Value == nil with a
-// non-zero encoding byte) inside a decoded value: the shape behind the listed finding.
-func extObjShape(x any, depth int) string {
-	if depth > 6 {
+// findShape walks a decoded value and names the first of the shapes for which the specification
+// carries a deviation flag: an ExtensionObject whose body was not decoded (Value == nil with a
+// non-zero encoding byte: unknown type id or zero-length body), a Variant array of ByteString
+// (elements are not written by Variant.Encode), a Variant with the dimensions flag but without
+// the array flag (Encode writes a dimension count that Decode never reads).
+func findShape(x reflect.Value, depth int) string {
+	if depth > 12 || !x.IsValid() {
 		return ""
 	}
-	switch v := x.(type) {
-	case *ua.ExtensionObject:
-		if v != nil && v.Value == nil && v.EncodingMask != ua.ExtensionObjectEmpty {
-			return "extension-object-body-not-decoded"
+	switch x.Kind() {
+	case reflect.Interface:
+		if x.IsNil() {
+			return ""
 		}
-	case *ua.Variant:
-		if v != nil {
-			rv := reflect.ValueOf(v.Value())
-			if rv.IsValid() && rv.Kind() == reflect.Slice {
-				for i := 0; i < rv.Len() && i < 8; i++ {
-					if rv.Index(i).CanInterface() {
-						if s := extObjShape(rv.Index(i).Interface(), depth+1); s != "" {
-							return s
-						}
-					}
-				}
-				return ""
+		return findShape(x.Elem(), depth+1)
+	case reflect.Ptr:
+		if x.IsNil() || !x.CanInterface() {
+			return ""
+		}
+		switch v := x.Interface().(type) {
+		case *ua.ExtensionObject:
+			if v.Value == nil && v.EncodingMask != ua.ExtensionObjectEmpty {
+				return "extension-object-body-not-decoded-reencode-panics"
 			}
-			return extObjShape(v.Value(), depth+1)
+			return findShape(reflect.ValueOf(v.Value), depth+1)
+		case *ua.Variant:
+			if v.Type() == ua.TypeIDByteString && v.Has(ua.VariantArrayValues) && v.ArrayLength() > 0 {
+				return "variant-array-of-bytestring-not-encodable"
+			}
+			if v.Type() != ua.TypeIDNull && v.Has(ua.VariantArrayDimensions) && !v.Has(ua.VariantArrayValues) {
+				return "variant-dimensions-flag-without-array-flag-reencode-adds-bytes"
+			}
+			return findShape(reflect.ValueOf(v.Value()), depth+1)
+		case *ua.NodeID:
+			return ""
 		}
-	case *ua.DataValue:
-		if v != nil {
-			return extObjShape(v.Value, depth+1)
+		return findShape(x.Elem(), depth+1)
+	case reflect.Struct:
+		if x.Type() == tTime {
+			return ""
 		}
-	default:
-		rv := reflect.ValueOf(x)
-		for rv.IsValid() && rv.Kind() == reflect.Ptr && !rv.IsNil() {
-			rv = rv.Elem()
+		for i := 0; i < x.NumField(); i++ {
+			if x.Type().Field(i).PkgPath != "" {
+				continue
+			}
+			if s := findShape(x.Field(i), depth+1); s != "" {
+				return s
+			}
 		}
-		if rv.IsValid() && rv.Kind() == reflect.Struct {
-			for i := 0; i < rv.NumField(); i++ {
-				f := rv.Field(i)
-				if !f.CanInterface() {
-					continue
-				}
-				switch f.Kind() {
-				case reflect.Ptr, reflect.Interface:
-					if !f.IsNil() {
-						if s := extObjShape(f.Interface(), depth+1); s != "" {
-							return s
-						}
-					}
-				case reflect.Slice:
-					for j := 0; j < f.Len() && j < 8; j++ {
-						if k := f.Index(j).Kind(); (k == reflect.Ptr || k == reflect.Interface) && !f.Index(j).IsNil() {
-							if s := extObjShape(f.Index(j).Interface(), depth+1); s != "" {
-								return s
-							}
-						}
-					}
-				}
+	case reflect.Slice:
+		if x.Type().Elem().Kind() == reflect.Uint8 {
+			return ""
+		}
+		for i := 0; i < x.Len() && i < 64; i++ {
+			if s := findShape(x.Index(i), depth+1); s != "" {
+				return s
 			}
 		}
 	}
 	return ""
 }
+
+var reTime = regexp.MustCompile(`T-?[0-9]+`)
 
 func reencode(r row) childRes {
 	b := caseBytes(r)
@@ -508,9 +545,10 @@ func reencode(r row) childRes {
 		return childRes{Status: "ok", Obs: "does not decode: " + firstLine(err.Error())}
 	}
 	_ = n
+	emit(childRes{I: r.idx, Status: "decoded"})
 	sk := func(sym string) string {
-		if s := extObjShape(t1, 0); s != "" {
-			return s + "-reencode-" + sym
+		if s := findShape(reflect.ValueOf(t1), 0); s != "" {
+			return s
 		}
 		return "reencode-" + sym + ":" + shapeKey("c03", r)
 	}
@@ -534,6 +572,11 @@ func reencode(r row) childRes {
 	}
 	c1, c2 := canon(t1), canon(t2)
 	if c1 != c2 {
+		if reTime.ReplaceAllString(c1, "T#") == reTime.ReplaceAllString(c2, "T#") {
+			// only DateTime fields differ: a wire DateTime outside the int64-nanosecond range of time.Time
+			return childRes{Status: "violation", Key: "datetime-outside-int64-nanosecond-range-changes-on-reencode",
+				Detail: fmt.Sprintf("%s: %x decodes to %s, re-encoded %x decodes to %s", ty, clip(b), trunc(c1), clip(enc), trunc(c2))}
+		}
 		return childRes{Status: "violation", Key: sk("changes-value"), Detail: fmt.Sprintf("%s: %x decodes to %s, re-encoded %x decodes to %s", ty, clip(b), trunc(c1), clip(enc), trunc(c2))}
 	}
 	return childRes{Status: "ok", Obs: fmt.Sprintf("%x -> %x", clip(b), clip(enc))}
@@ -589,4 +632,81 @@ func panicShape(msg string) string {
 		return "reflect"
 	}
 	return "other"
+}
+
+// ---------------------------------------------------------------- derived cases
+
+// derive makes byte-level cases from TLC rows (value / struct rows with their token sequences):
+// the positions the model marks as masks (u8 tokens with an integer payload) resp. as lengths,
+// counts and dimensions (i32 tokens with an integer payload) are varied one at a time.
+//
+//	stream  (C03): the canonical encoding and non-canonical variants with one mask bit flipped
+//	hostile (C02): one length replaced by a hostile value; truncations at token boundaries
+func derive(kind string, rows []row) {
+	flips := []int64{0x80, 0x40, 0x20, 0x10, 0x08, 0x04}
+	hostiles := []int64{-2, -2147483648, 2147483647, 65535, 65536, 16777216}
+	rnd := vfgo.Rand(77)
+	emit := func(r row, ts []tok, origin string) {
+		var b []byte
+		if p, _ := vfgo.Recover(func() { b = tokBytes(ts) }); p {
+			return
+		}
+		nr := row{Kind: kind, Hex: hex.EncodeToString(b), Origin: origin}
+		if r.Kind == "struct" {
+			nr.Name = r.Name
+		} else {
+			nr.Ty = r.V.T
+		}
+		if nr.Hex == "" {
+			nr.Hex = "00"
+			if len(b) == 0 {
+				nr.Origin = origin + "-empty"
+				nr.Hex = ""
+				nr.Toks = []tok{}
+			}
+		}
+		vfgo.Emit(vfgo.Result{Status: "ok", Class: "gen", Case: nr})
+	}
+	for _, r := range rows {
+		if r.Kind != "value" && r.Kind != "struct" {
+			continue
+		}
+		var masks, lens []int
+		for i, t := range r.Toks {
+			if t.A == "" && t.K == "u8" {
+				masks = append(masks, i)
+			}
+			if t.A == "" && t.K == "i32" {
+				lens = append(lens, i)
+			}
+		}
+		pick := func(ps []int, n int) []int {
+			if len(ps) <= n {
+				return ps
+			}
+			rnd.Shuffle(len(ps), func(i, j int) { ps[i], ps[j] = ps[j], ps[i] })
+			return ps[:n]
+		}
+		if kind == "stream" {
+			emit(r, r.Toks, "canonical")
+			for _, i := range pick(masks, *genN) {
+				for _, f := range flips {
+					ts := append([]tok{}, r.Toks...)
+					ts[i].N ^= f
+					emit(r, ts, fmt.Sprintf("mask-flip-%02x", f))
+				}
+			}
+			continue
+		}
+		for _, i := range pick(lens, *genN) {
+			for _, h := range hostiles {
+				ts := append([]tok{}, r.Toks...)
+				ts[i].N = h
+				emit(r, ts, "length-replaced")
+			}
+		}
+		if len(r.Toks) > 1 {
+			emit(r, r.Toks[:rnd.Intn(len(r.Toks))], "truncated")
+		}
+	}
 }
